@@ -40,7 +40,7 @@ func c06Sub(w *W) {
 	if w.Choose(simrt.SShape, 6) == 0 {
 		kind = "xsub"
 	}
-	tran := []string{"inproc", "sim", "simipc"}[w.Choose(simrt.SShape, 3)]
+	tran := []string{"inproc", "sim", "simipc", "tcp", "ipc", "tls+tcp"}[w.Choose(simrt.SShape, 6)]
 	npub := 1 + w.Choose(simrt.SShape, 2)
 	nctx := 1
 	if kind == "sub" {
@@ -63,7 +63,7 @@ func c06Sub(w *W) {
 	mustSet(w, s, mangos.OptionReadQLen, qlen)
 	mustSet(w, s, mangos.OptionRecvDeadline, time.Millisecond)
 	addr := w.Addr(tran)
-	if err := s.Listen(addr); err != nil {
+	if err := w.ListenOn(s, addr); err != nil {
 		w.Failf("HARNESS/listen", "%v", err)
 		return
 	}
@@ -71,7 +71,7 @@ func c06Sub(w *W) {
 	for i := 0; i < npub; i++ {
 		p := w.Sock("pub")
 		defer p.Close()
-		if err := p.Dial(addr); err != nil {
+		if err := w.DialOn(p, addr); err != nil {
 			w.Failf("HARNESS/dial", "%v", err)
 			return
 		}
@@ -397,7 +397,7 @@ func c06Pub(w *W) {
 	addr := w.Addr("msg")
 	s := w.Sock(kind)
 	defer s.Close()
-	if err := s.Listen(addr); err != nil {
+	if err := w.ListenOn(s, addr); err != nil {
 		w.Failf("HARNESS/listen", "%v", err)
 		return
 	}
